@@ -378,13 +378,25 @@ def check(repo, run, tier):
     g(unitrules.suffix_constructors, repo, run, 'C13.R4')
     g(unitrules.tag_spec, repo, run, 'C13.R4', ['!call', '!call:', '!bind', '!bind:'])
     g(unitrules.import_name_table, repo, run, 'C13.R6')
+    g(unitrules.relative_import_calls, repo, run, 'C13.R6')
     g(unitrules.small_node_tables, repo, run, 'C13.R6', 'import')
     g(unitrules.small_node_tables, repo, run, 'C13.R3', 'function-bool')
     g.done()
 
 
+def _drop_package(r):
+    import re
+    fi = r.func('yaml._import_constructor')
+    m = re.search(r"importlib\.import_module\(('[^']+'), package=[^)]*\)", fi.module.text)
+    if m is None:
+        from ..mutate import NotApplicable
+        raise NotApplicable('import_module(..., package=...) not found')
+    return {fi.module.relpath: fi.module.text.replace(m.group(0), 'importlib.import_module(%s)' % m.group(1), 1)}
+
+
 def mutants(repo):
     return [
+        Mutant('relative-import-without-package', lambda r: _drop_package(r), ['C13.R6']),
         Mutant('import-node-evaluates-to-nothing', lambda r: in_func(r, 'ImportNode.ayns.on_evaluate_impl', "return import_name(str(self))", "import_name(str(self))"), ['C13.R6']),
         Mutant('function-node-truth-lost', lambda r: in_func(r, 'FunctionNode.__bool__', "return bool(self._func)", "bool(self._func)"), ['C13.R3']),
         Mutant('attribute-lookup-skipped', lambda r: in_func(r, 'utils.import_name', "        if current is not None:\n            try:\n                current = getattr(current, element)", "        if current is None:\n            try:\n                current = getattr(current, element)"), ['C13.R6']),
